@@ -33,10 +33,18 @@ def build_probe(opt):
     return exe, None
 
 
-def run_probe(exe, workers, seed, rounds, timeout=120):
+# default stack sizes the probe is also run with: not multiples of 16 (the top of a default stack is
+# base + size - 16: the alignment of a fresh context then depends on make_context alone)
+ODD_STACK_SIZES = [None, 131080, None, 98328, 262152, None]
+
+
+def run_probe(exe, workers, seed, rounds, timeout=120, stk=None):
     env = dict(os.environ)
     env["MYTH_NUM_WORKERS"] = str(workers)
     env.pop("MYTH_CPU_LIST", None)
+    env.pop("MYTH_DEF_STKSIZE", None)
+    if stk:
+        env["MYTH_DEF_STKSIZE"] = str(stk)
     rc, out, err = common.sh([exe, str(seed), str(rounds)], env=env, timeout=timeout)
     r = {"rc": rc, "kinds": {}, "callbacks": {}, "entry": {}, "fails": [], "result": None, "hooks": None,
          "stderr": err[-400:]}
@@ -122,12 +130,13 @@ def run(res):
     total_ops, kinds_hit, samples = 0, 0, []
     hist_ops, hist_cb, hist_mig = {}, {}, {}
     nruns = 0
-    for (opt, w, seed, rounds) in cfgs:
+    for ci, (opt, w, seed, rounds) in enumerate(cfgs):
         if opt not in exes:
             continue
-        r = run_probe(exes[opt], w, seed, rounds)
+        stk = ODD_STACK_SIZES[ci % len(ODD_STACK_SIZES)]
+        r = run_probe(exes[opt], w, seed, rounds, stk=stk)
         nruns += 1
-        cfg = {"opt": opt, "workers": w, "seed": seed, "rounds": rounds}
+        cfg = {"opt": opt, "workers": w, "seed": seed, "rounds": rounds, "default_stack_size": stk}
         if r["result"] is None:
             # crashed / killed / timed out: a verdict only if the obligations are broken as well
             text = "ctx_probe %s did not finish (rc=%s) %s %s" % (cfg, r["rc"], " ".join(r["fails"]), r["stderr"].strip()[-200:])
@@ -259,7 +268,7 @@ def replay(path):
         print(e)
         return 2
     for attempt in range(20):
-        r = run_probe(exe, c["workers"], c["seed"], c["rounds"])
+        r = run_probe(exe, c["workers"], c["seed"], c["rounds"], stk=c.get("default_stack_size"))
         if r["result"] != "PASS":
             print("\n".join(table(r)))
             print("\n".join(r["fails"]))
